@@ -59,6 +59,11 @@ def rnd_head(rng):
         h += b' ' + rnd_line(rng, rng.range(0, 5), b'desc =')
     if rng.chance(1, 8):
         h = b' ' + h
+    if rng.chance(1, 8):
+        # other ASCII whitespace than the space: only the first SPACE separates id and description
+        ws = rng.choice([b'\t', b'\x0b', b'\x0c', b'\t '])
+        k = rng.below(len(h) + 1)
+        h = h[:k] + ws + h[k:]
     if rng.chance(1, 10):
         # non-UTF-8 / multi-byte content
         h += rng.choice([b'\xff', b'\xc3\xa9', b'\xe2\x82', b'\x80', b'\xf0\x9f\x98\x80', b'\xed\xa0\x80', b'\x00'])
